@@ -777,7 +777,9 @@ libGetHeader(Lib lib)
 	LIB_SEEK(lib, long0);
 	cc = libHdrSize;
 	s = strAlloc(cc);
-	FILE_GET_CHARS(lib->file, s, cc);
+	/* A file shorter than its own header is not a library. */
+	if (fread(s, BYTE_BYTES, cc, lib->file) != cc)
+		comsgFatal(NULL, ALDOR_E_LibBadSectHdr, libToStringStatic(lib));
 	buf = bufCapture(s, cc);
 
 	lib->hdr.magic = bufGetHInt(buf);
@@ -801,7 +803,9 @@ libGetHeader(Lib lib)
 			libNameIndex(lib, n) = i;
 	}
 
-	libChkHeader(lib);
+	/* libChkHeader has reported what is wrong; do not go on to use it. */
+	if (!libChkHeader(lib))
+		comsgFatal(NULL, ALDOR_E_LibBadSectHdr, libToStringStatic(lib));
 	return lib;
 }
 
@@ -895,7 +899,9 @@ libGetSection(Lib lib, LibSectName name, Bool stat)
 		buf = bufCapture(s, cc);
 	}
 
-	FILE_GET_CHARS(lib->file, s, cc);
+	/* The section table promises cc bytes; a truncated file has fewer. */
+	if (fread(s, BYTE_BYTES, cc, lib->file) != cc)
+		comsgFatal(NULL, ALDOR_E_LibSectOffset, libToStringStatic(lib));
 	bufStart(buf);
 	return buf;
 }
